@@ -50,6 +50,10 @@ func (a *FuncAn) elemLenOf(v ssa.Value, seen map[ssa.Value]bool) elemLenRes {
 				return elemLenRes{any: true, ok: true}
 			}
 		}
+		// a window of a table has the table's element invariant
+		if isSliceOfSeq(x.X.Type()) {
+			return a.elemLenOf(x.X, seen)
+		}
 	case *ssa.Phi:
 		res := elemLenRes{any: true, ok: true}
 		for _, e := range x.Edges {
